@@ -18,6 +18,7 @@ import (
 
 	"github.com/pion/stun/v3"
 	"github.com/pion/turn/v5/internal/allocation"
+	"github.com/pion/turn/v5/internal/ipnet"
 	"github.com/pion/turn/v5/internal/proto"
 )
 
@@ -1397,6 +1398,21 @@ func h2Fingerprints(vt *vhT) {
 			vt.Obs("eq")
 		} else {
 			vt.Obs("ne")
+		}
+	}
+	// the two other notions of "the same address" the server uses: ipnet.AddrEqual (channel bindings by peer address) and
+	// the permission key ipnet.FingerprintAddr (IP only) — both must be the relation the model proves the key to be
+	for _, a := range pool {
+		for _, b := range pool {
+			tcp := rng.Intn(2) == 0
+			vt.Op("aeq %s %d %s %d", hex(a.ip), a.port, hex(b.ip), b.port)
+			vt.Obs("%v", ipnet.AddrEqual(mk(a, tcp), mk(b, tcp)))
+		}
+	}
+	for _, a := range ips {
+		for _, b := range ips {
+			vt.Op("pkey %s %s", hex(a), hex(b))
+			vt.Obs("%v", ipnet.FingerprintAddr(mk(ad{a, 1}, false)) == ipnet.FingerprintAddr(mk(ad{b, 2}, rng.Intn(2) == 0)))
 		}
 	}
 	srv := ad{net.IPv6unspecified, 3478}
